@@ -30,3 +30,8 @@ Record newarg := mkNew { na_name : str; na_value : expr; na_add : bool }.
 
 (** Shape of a source fragment of the argument-list kernel: the one form the model was written against. *)
 Inductive args_variant := ArgsAsWritten.
+
+(** harden_pyyaml.HardenPyyamlCallMixin.update_call: how the Loader argument is located. *)
+Inductive pyyaml_variant :=
+| PyyamlByIndex        (* [*args[:1], args[1].with_changes(value=SafeLoader)]: position 1 whatever it is; the rest dropped *)
+| PyyamlByParameter.   (* the argument that binds Loader (keyword anywhere, else second plain positional), else appended *)
